@@ -739,6 +739,12 @@ def scroll_configs(tier):
                 ffks = (False, True) if content[0] in ("pile", "grab") and content[1] != "empty" else (False,)
                 for ffk in ffks:
                     out.append({"content": list(content), "size": list(size), "bar": list(bar) if bar else None, "ffk": ffk})
+    if tier != "quick":
+        # rendered without focus (e.g. the Scrollable sits in an unfocused column): no cursor in the content
+        for content in (("text", "T8"), ("pile", "mixed")):
+            for size in sizes:
+                for bar in (None, ("right", 1)):
+                    out.append({"content": list(content), "size": list(size), "bar": list(bar) if bar else None, "ffk": False, "focus": False})
     return out
 
 
